@@ -19,8 +19,10 @@ Group 2 (powell, bfgs, lbfgs with objective_fn): objective-not-f(solution) and n
 """
 from __future__ import annotations
 
+import functools
 import math
 import random
+from fractions import Fraction
 
 from hypothesis import strategies as st
 
@@ -87,9 +89,40 @@ def _cl(x):
 
 
 # ============================================================================= objectives
+INF = {"inf": float("inf"), "-inf": float("-inf")}
+
+
+def _exactify(v, ex):
+    """Exact value classes (the scale is 1, v is an int): 'bigint' = +-10**exp + v (beyond 2**53: not a double),
+    'fraction' = 1/3 + v/10**20 (fractions.Fraction).  Distinct v stay distinct only in exact arithmetic."""
+    if ex["type"] == "bigint":
+        return (-1 if ex.get("neg") else 1) * 10 ** ex["exp"] + v
+    return Fraction(1, 3) + Fraction(v, 10**20)
+
+
+def _finish(g, o):
+    """g: int key -> value.  Adds the optional hard penalty (keys lo..hi are worth +-inf) and the exact value class."""
+    sc, ex, pen = o.get("scale", 1), o.get("exact"), o.get("pen")
+    if pen:
+        lo, hi, pv = pen["lo"], pen["hi"], INF[pen["val"]]
+    if ex is not None and sc != 1:
+        raise ValueError("exact value classes need scale 1")
+
+    def h(k):
+        if pen and lo <= k <= hi:
+            return pv
+        v = g(k)
+        if ex is not None:
+            return _exactify(v, ex)
+        return v if sc == 1 else v * sc
+
+    return h
+
+
 def build_disc(o):
-    """Objective on tuples of small ints.  key = sum t_i*mult_i, then a table/quadratic/plateau/sawtooth of the key."""
-    kind, mult, sc = o["kind"], o["mult"], o["scale"]
+    """Objective on tuples of small ints.  key = sum t_i*mult_i, then a table/quadratic/plateau/sawtooth of the key
+    (optionally: +-inf penalty on a key range, values as big ints or Fractions, see _finish)."""
+    kind, mult = o["kind"], o["mult"]
 
     def key(t):
         return sum(a * b for a, b in zip(t, mult))
@@ -122,9 +155,8 @@ def build_disc(o):
     else:
         raise ValueError(kind)
 
-    if sc == 1:
-        return _mine(lambda t: g(key(t)))
-    return _mine(lambda t: g(key(t)) * sc)
+    fin = _finish(g, o)
+    return _mine(lambda t: fin(key(t)))
 
 
 def build_vec(o):
@@ -201,13 +233,15 @@ def build_vec(o):
             return [a[i] for i in range(d)]
 
     elif kind == "vtable":
-        vals, sc = o["vals"], o["s"]
+        vals, sc, ex = o["vals"], o["s"], o.get("exact")
         n = len(vals)
 
         def f(x):
             k = 0
             for i in range(d):
                 k += math.floor(sc * (_cl(x[i]) - c[i]))
+            if ex is not None:
+                return _exactify(vals[k % n], ex)
             return vals[k % n] * b
 
         def grad(x):
@@ -241,6 +275,54 @@ class Rec:
         return v
 
 
+CALLABLE_KINDS = ["object", "function", "lambda", "partial", "bound-method", "evaluator", "evaluator-flip"]
+
+
+def _apply(fn, x):
+    return fn(x)
+
+
+class _Holder:
+    def __init__(self, fn):
+        self.fn = fn
+
+    def evaluate(self, x):
+        return self.fn(x)
+
+
+def wrap_callable(kind, rec):
+    """The objective is handed to the solver as one of several callable kinds (any callable is a valid objective).
+    Returns (callable, outer_count) where outer_count() is the number of invocations seen by the outermost callable
+    when that callable counts on its own (solvor.utils.Evaluator, the package's public call-counting wrapper), else None.
+    'evaluator-flip' = Evaluator(lambda x: -rec(x), minimize=False): a sign-flipping wrapper, equal to rec pointwise."""
+    if kind == 0:
+        return rec, None
+    if kind == 1:
+
+        def objective(x):
+            return rec(x)
+
+        return objective, None
+    if kind == 2:
+        return (lambda x: rec(x)), None
+    if kind == 3:
+        return functools.partial(_apply, rec), None
+    if kind == 4:
+        return _Holder(rec).evaluate, None
+    from solvor.utils import Evaluator
+
+    ev = Evaluator(rec, minimize=True) if kind == 5 else Evaluator(lambda x: -rec(x), minimize=False)
+    return ev, (lambda: ev.evals)
+
+
+def _run_wrapped(name, desc, call, rec, minimize):
+    """Run the solver on rec presented as desc['callable']; the outer wrapper's own call counter, when it has one,
+    must agree with Result.evaluations (group 1: evaluations == number of objective calls)."""
+    fn, outer = wrap_callable(desc.get("callable", 0), rec)
+    res, ps = call(fn, minimize)
+    return res, ps, outer
+
+
 def mk_progress(p):
     """on_progress from the description: ask for a stop once iteration >= stop_at (None/False otherwise)."""
     state = {"calls": 0, "stopped": False}
@@ -260,7 +342,11 @@ def mk_progress(p):
 
 # ============================================================================= the oracle
 def _num(v):
-    return isinstance(v, (int, float)) and not isinstance(v, bool)
+    return isinstance(v, (int, float, Fraction)) and not isinstance(v, bool)
+
+
+def _exact(v):
+    return isinstance(v, (int, Fraction)) and not isinstance(v, bool)
 
 
 def _eq(a, b):
@@ -299,20 +385,38 @@ def judge_solution(name, res, f, valid_point):
     if not _num(res.objective):
         raise Violation(f"{name}:objective-not-a-number", {"objective": repr(res.objective)[:100]})
     fv = f(tuple(sol))
-    if not abs(res.objective - fv) <= REL * max(1.0, abs(fv)):
+    obj = res.objective
+    if _exact(fv) or math.isinf(fv) or (isinstance(obj, float) and math.isinf(obj)):
+        # exact objective values (int, Fraction) and +-inf are compared exactly: a relative tolerance would swallow
+        # 1 in 10**17, and inf <= inf would equate -inf with +inf
+        ok = obj == fv
+    else:
+        ok = obj == fv or abs(obj - fv) <= REL * max(1.0, abs(fv))
+    if not ok:
         raise Violation(f"{name}:objective-not-f(solution)", {"objective": res.objective, "f(solution)": fv, "solution": _pt(sol)})
     return fv
+
+
+def _value_labels(ctx, desc, vals):
+    o = desc["obj"]
+    ex, pen = o.get("exact"), o.get("pen")
+    ctx.label(ex and "values-" + ex["type"], pen and "penalty-" + pen["val"])
+    if pen and vals:
+        n_inf = sum(1 for v in vals if isinstance(v, float) and math.isinf(v))
+        ctx.label(n_inf == len(vals) and "all-evaluated-infinite", 0 < n_inf < len(vals) and "some-evaluated-infinite")
 
 
 def group1(name, ctx, desc, f, call, valid_point, starts=(), bounds=None):
     """call(objective, minimize) -> (Result, progress_state).  All group-1 clauses."""
     m = desc["minimize"]
     rec = Rec(f)
-    res, ps = call(rec, m)
+    res, ps, outer = _run_wrapped(name, desc, call, rec, m)
     log = rec.log
     vals = [v for _, v in log]
 
     ctx.label(name, "minimize" if m else "maximize", "obj-" + desc["obj"]["kind"])
+    ctx.label("callable-" + CALLABLE_KINDS[desc.get("callable", 0)])
+    _value_labels(ctx, desc, vals)
     ctx.label(desc.get("progress") and "on_progress", ps["stopped"] and "early-stop")
     ctx.label(len(set(vals)) < len(vals) and "ties-in-log", len(set(vals)) == 1 and "constant-log")
     nt = _nontrivial(vals, m)
@@ -335,6 +439,8 @@ def group1(name, ctx, desc, f, call, valid_point, starts=(), bounds=None):
             )
     if res.evaluations != len(log):
         raise Violation(f"{name}:evaluations-count", {"evaluations": res.evaluations, "proxy_calls": len(log)})
+    if outer is not None and outer() != res.evaluations:
+        raise Violation(f"{name}:evaluations-count", {"evaluations": res.evaluations, "calls_counted_by_the_objective_wrapper": outer(), "proxy_calls": len(log)})
     if bounds is not None:
         # measured only: the statement speaks about the returned point ("bounded solvers return points inside
         # their bounds"); an evaluated point outside the box is a violation once it is returned (below)
@@ -347,7 +453,7 @@ def group1(name, ctx, desc, f, call, valid_point, starts=(), bounds=None):
 
     # same input again
     rec2 = Rec(f)
-    res2, _ = call(rec2, m)
+    res2, _, _ = _run_wrapped(name, desc, call, rec2, m)
     if not (_same_point(res2.solution, res.solution) and _eq(res2.objective, obj) and res2.iterations == res.iterations and res2.evaluations == res.evaluations):
         raise Violation(
             f"{name}:not-reproducible",
@@ -358,7 +464,7 @@ def group1(name, ctx, desc, f, call, valid_point, starts=(), bounds=None):
 
     # mirror image: (-f, not minimize), same seeds
     rec3 = Rec(f, neg=True)
-    res3, _ = call(rec3, not m)
+    res3, _, _ = _run_wrapped(name, desc, call, rec3, not m)
     if not _same_point(res3.solution, res.solution):
         raise Violation(f"{name}:mirror-solution", {"solution": _pt(res.solution), "mirror_solution": _pt(res3.solution), "objective": obj, "mirror_objective": res3.objective})
     if not _eq(res3.objective, -obj):
@@ -370,9 +476,10 @@ def group1(name, ctx, desc, f, call, valid_point, starts=(), bounds=None):
 def group2(name, ctx, desc, f, call, valid_point):
     m = desc["minimize"]
     rec = Rec(f)
-    res, ps = call(rec, m)
+    res, ps, _ = _run_wrapped(name, desc, call, rec, m)
     vals = [v for _, v in rec.log]
     ctx.label(name, "minimize" if m else "maximize", "obj-" + desc["obj"]["kind"])
+    ctx.label("callable-" + CALLABLE_KINDS[desc.get("callable", 0)])
     ctx.label(desc.get("progress") and "on_progress", ps["stopped"] and "early-stop", desc.get("bounds") and "bounds")
     nt = _nontrivial(vals, m)
     ctx.nontrivial(nt)
@@ -382,7 +489,7 @@ def group2(name, ctx, desc, f, call, valid_point):
     ctx.label(res.iterations == 0 and "zero-iterations")
     judge_solution(name, res, f, valid_point)
     rec2 = Rec(f)
-    res2, _ = call(rec2, m)
+    res2, _, _ = _run_wrapped(name, desc, call, rec2, m)
     if not (_same_point(res2.solution, res.solution) and _eq(res2.objective, res.objective) and res2.iterations == res.iterations and res2.evaluations == res.evaluations):
         raise Violation(
             f"{name}:not-reproducible",
@@ -561,6 +668,40 @@ def _iters(draw, hi):
     return (draw(st.integers(0, 9999)) * 37) % hi + 1
 
 
+CALLABLE = st.sampled_from([0, 1, 2, 3, 4, 5, 6, 5, 6])  # index into CALLABLE_KINDS; the two Evaluator kinds in ~40%
+EXACT = st.sampled_from(
+    [{"type": "bigint", "exp": 17}, {"type": "bigint", "exp": 17, "neg": True}, {"type": "bigint", "exp": 18}, {"type": "bigint", "exp": 30}]
+    + [{"type": "fraction"}] * 2
+)
+
+
+def _value_class(draw, o, keymax):
+    """~64% plain values; ~27% exact value classes (big ints beyond 2**53, Fractions; scale forced to 1); ~18% a hard
+    penalty: the keys lo..hi are worth +-inf, the whole key range in 40% of those (runs that never leave the infeasible
+    region).  pen['dir'] = bad|good is turned into pen['val'] = '-inf'|'inf' by _orient once minimize is known."""
+    cls = draw(st.sampled_from(["plain"] * 14 + ["exact"] * 5 + ["pen"] * 3 + ["pen+exact"]))
+    if "exact" in cls:
+        o["scale"] = 1
+        o["exact"] = dict(draw(EXACT))
+    if "pen" in cls:
+        if _chance(draw, 40):
+            lo, hi = 0, keymax
+        else:
+            thr = draw(st.integers(0, keymax))
+            lo, hi = (0, thr) if draw(st.booleans()) else (thr, keymax)
+        o["pen"] = {"lo": lo, "hi": hi, "dir": "bad" if _chance(draw, 75) else "good"}
+
+
+def _orient(desc):
+    """Hard penalties point against the direction of optimisation ('bad': -inf when maximising, +inf when minimising)
+    or, in a quarter of the cases, with it.  Done after generation because minimize is drawn later than the objective."""
+    pen = desc["obj"].get("pen")
+    if pen and "dir" in pen:
+        bad = pen.pop("dir") == "bad"
+        pen["val"] = "inf" if bad == desc["minimize"] else "-inf"
+    return desc
+
+
 @st.composite
 def disc_space(draw, tier):
     k = draw(st.sampled_from([1, 2, 2, 3, 3, 4]))
@@ -578,6 +719,7 @@ def disc_space(draw, tier):
         o.update(w=draw(st.integers(2, max(2, keymax // 2))), h=draw(NZ), b=draw(SMALL))
     else:
         o.update(p=draw(st.integers(2, max(2, keymax // 2))), s=draw(NZ), t=draw(NZ))
+    _value_class(draw, o, keymax)
     return {"k": k, "m": m}, o
 
 
@@ -607,7 +749,7 @@ POS = st.sampled_from([0.25, 0.5, 1.0, 1.5, 2.0, 0.0])
 
 
 @st.composite
-def vec_obj(draw, d, kinds=("sphere", "abs", "step", "rast", "vtable", "linear")):
+def vec_obj(draw, d, kinds=("sphere", "abs", "step", "rast", "vtable", "linear"), exact_ok=False):
     kind = draw(st.sampled_from(list(kinds)))
     o = {"kind": kind, "d": d, "c": draw(st.lists(dy(-4, 4), min_size=d, max_size=d)), "b": draw(dy(-4, 4))}
     if kind in ("sphere", "abs", "linear"):
@@ -623,6 +765,8 @@ def vec_obj(draw, d, kinds=("sphere", "abs", "step", "rast", "vtable", "linear")
         o["s"] = draw(st.sampled_from([1.0, 2.0, 4.0, 8.0]))
         o["vals"] = _table(draw, 3, 16)
         o["b"] = draw(st.sampled_from([1.0, 1.0, 0.5, 0.125]))  # value scale of the table
+        if exact_ok and _chance(draw, 40):
+            o["exact"] = dict(draw(EXACT))  # table entries as big ints / Fractions instead of floats
     return o
 
 
@@ -684,6 +828,7 @@ def anneal_cases(draw, tier="quick"):
         "nb": {"deltas": draw(DELTAS), "wrap": draw(st.booleans())},
         "cb_seed": draw(SEED),
         "minimize": not _chance(draw, 50),
+        "callable": draw(CALLABLE),
         "temperature": draw(st.sampled_from([0.25, 1.0, 10.0, 1000.0])),
         "cooling": cooling,
         "min_temp": draw(st.sampled_from([1e-8, 1e-8, 0.01, 0.5])),
@@ -744,6 +889,7 @@ def tabu_cases(draw, tier="quick"):
         },
         "cb_seed": draw(SEED),
         "minimize": not _chance(draw, 50),
+        "callable": draw(CALLABLE),
         "cooldown": draw(st.integers(1, 6)),
         "max_iter": max_iter,
         "max_no_improve": _iters(draw, 40),
@@ -861,10 +1007,13 @@ def tabu_graph_cases(draw, tier="quick"):
         if len(adj2[v]) > 1:
             adj2[v] = list(draw(st.permutations(adj2[v])))
     max_iter = _iters(draw, 12 if tier == "quick" else 30)
+    obj = {"kind": "graph-table", "vals": vals, "scale": draw(SCALE)}
+    _value_class(draw, obj, n - 1)
     return {
         "family": family,
         "n": n,
-        "obj": {"kind": "graph-table", "vals": vals, "scale": draw(SCALE)},
+        "obj": obj,
+        "callable": draw(CALLABLE),
         "adj": adj2,
         "start": perm[start],
         "scheme": scheme,
@@ -880,8 +1029,9 @@ def tabu_graph_cases(draw, tier="quick"):
 def run_tabu_graph(desc, ctx):
     from solvor.tabu import tabu_search
 
-    n, vals, sc, adj, scheme = desc["n"], desc["obj"]["vals"], desc["obj"]["scale"], desc["adj"], desc["scheme"]
-    f = _mine((lambda s: vals[s[0]]) if sc == 1 else (lambda s: vals[s[0]] * sc))
+    n, vals, adj, scheme = desc["n"], desc["obj"]["vals"], desc["adj"], desc["scheme"]
+    fin = _finish(lambda i: vals[i], desc["obj"])  # key = state index
+    f = _mine(lambda s: fin(s[0]))
     start = (desc["start"],)
 
     def neighbors(s):
@@ -951,6 +1101,7 @@ def lns_cases(draw, tier="quick"):
         "repair": draw(repair_op()),
         "cb_seed": draw(SEED),
         "minimize": not _chance(draw, 50),
+        "callable": draw(CALLABLE),
         "accept": draw(accept_st(LNS_COIN_ACCEPT)),
         "start_temp": draw(st.sampled_from([0.5, 5.0, 100.0])),
         "cooling_rate": draw(st.sampled_from([0.5, 0.9, 0.9995])),
@@ -1015,6 +1166,7 @@ def alns_cases(draw, tier="quick"):
         "repair_weights": draw(st.lists(dy(0.125, 4), min_size=len(rops), max_size=len(rops))) if weights else None,
         "cb_seed": draw(SEED),
         "minimize": not _chance(draw, 50),
+        "callable": draw(CALLABLE),
         "accept": draw(accept_st(True)),
         "start_temp": draw(st.sampled_from([0.5, 5.0, 100.0])),
         "cooling_rate": draw(st.sampled_from([0.5, 0.9, 0.9995])),
@@ -1082,6 +1234,7 @@ def evolve_cases(draw, tier="quick"):
         "mutate": {"deltas": draw(DELTAS), "wrap": draw(st.booleans())},
         "cb_seed": draw(SEED),
         "minimize": not _chance(draw, 50),
+        "callable": draw(CALLABLE),
         "elite_size": draw(st.sampled_from([0, 0, 1, 2, 2, npop, npop + 1])),
         "mutation_rate": draw(st.sampled_from([0.0, 0.1, 0.5, 1.0])),
         "adaptive_mutation": draw(st.booleans()),
@@ -1142,9 +1295,10 @@ def de_cases(draw, tier="quick"):
     if draw(st.booleans()):
         init, outside = draw(points_in(bounds, draw(st.integers(1, eff))))
     return {
-        "obj": draw(vec_obj(d)),
+        "obj": draw(vec_obj(d, exact_ok=True)),
         "bounds": bounds,
         "minimize": not _chance(draw, 50),
+        "callable": draw(CALLABLE),
         "population_size": psize,
         "mutation": draw(dy(0, 2)),
         "crossover": draw(st.sampled_from([0.0, 0.3, 0.7, 1.0])),
@@ -1200,9 +1354,10 @@ def pso_cases(draw, tier="quick"):
     if draw(st.booleans()):
         init, outside = draw(points_in(bounds, draw(st.integers(1, npart))))
     return {
-        "obj": draw(vec_obj(d)),
+        "obj": draw(vec_obj(d, exact_ok=True)),
         "bounds": bounds,
         "minimize": not _chance(draw, 50),
+        "callable": draw(CALLABLE),
         "n_particles": npart,
         "max_iter": max_iter,
         "inertia": draw(dy(0, 1)),
@@ -1255,9 +1410,10 @@ def nm_cases(draw, tier="quick"):
     d = draw(st.integers(1, 3))
     max_iter = _iters(draw, 40 if tier == "quick" else 150)
     return {
-        "obj": draw(vec_obj(d)),
+        "obj": draw(vec_obj(d, exact_ok=True)),
         "x0": draw(st.lists(dy(-4, 4), min_size=d, max_size=d)),
         "minimize": not _chance(draw, 50),
+        "callable": draw(CALLABLE),
         "max_iter": max_iter,
         "tol": draw(st.sampled_from([1e-6, 1e-6, 1e-2, 0.0])),
         "adaptive": draw(st.booleans()),
@@ -1311,6 +1467,7 @@ def bayes_cases(draw, tier="quick"):
         "obj": draw(vec_obj(d, kinds=kinds)),
         "bounds": draw(bounds_st(d)),
         "minimize": not _chance(draw, 50),
+        "callable": draw(CALLABLE),
         "max_iter": max_iter,
         "n_initial": n_initial,
         "acquisition": draw(st.sampled_from(["ucb", "ei"])),  # sampled_from leans to the first element
@@ -1365,6 +1522,7 @@ def powell_cases(draw, tier="quick"):
         "x0": x0,
         "bounds": bounds,
         "minimize": not _chance(draw, 50),
+        "callable": draw(CALLABLE),
         "max_iter": max_iter,
         "tol": draw(st.sampled_from([1e-6, 1e-6, 1e-2, 0.0])),
         "progress": draw(progress_st(max_iter)),
@@ -1407,6 +1565,7 @@ def bfgs_cases(draw, tier="quick"):
         "obj": obj,
         "x0": draw(st.lists(dy(-4, 4), min_size=d, max_size=d)),
         "minimize": not _chance(draw, 50),
+        "callable": draw(CALLABLE),
         "m": draw(st.integers(1, 5)),
         "max_iter": max_iter,
         "tol": draw(st.sampled_from([1e-6, 1e-6, 1e-2, 1.0])),
@@ -1440,12 +1599,12 @@ def _sub(name, run, strat, quick, thorough, wq=1, wt=4):
 
 
 SUBS = [
-    _sub("anneal", run_anneal, lambda tier: anneal_cases(tier), 1500, 4000),
-    _sub("tabu_search", run_tabu, lambda tier: tabu_cases(tier), 1000, 3000),
-    _sub("tabu_graph", run_tabu_graph, lambda tier: tabu_graph_cases(tier), 1500, 4000),
-    _sub("lns", run_lns, lambda tier: lns_cases(tier), 1500, 4000),
-    _sub("alns", run_alns, lambda tier: alns_cases(tier), 1300, 4000),
-    _sub("evolve", run_evolve, lambda tier: evolve_cases(tier), 1200, 3500),
+    _sub("anneal", run_anneal, lambda tier: anneal_cases(tier).map(_orient), 1500, 4000),
+    _sub("tabu_search", run_tabu, lambda tier: tabu_cases(tier).map(_orient), 1000, 3000),
+    _sub("tabu_graph", run_tabu_graph, lambda tier: tabu_graph_cases(tier).map(_orient), 1500, 4000),
+    _sub("lns", run_lns, lambda tier: lns_cases(tier).map(_orient), 1500, 4000),
+    _sub("alns", run_alns, lambda tier: alns_cases(tier).map(_orient), 1300, 4000),
+    _sub("evolve", run_evolve, lambda tier: evolve_cases(tier).map(_orient), 1200, 3500),
     _sub("differential_evolution", run_de, lambda tier: de_cases(tier), 1200, 3000),
     _sub("particle_swarm", run_pso, lambda tier: pso_cases(tier), 1200, 3000),
     _sub("nelder_mead", run_nm, lambda tier: nm_cases(tier), 900, 3500, wq=2),
